@@ -40,7 +40,9 @@ DEFAULT = {
     "p_dense_constraint": 0.3,
     "p_infeasible_last": 0.0,
     "p_r_only_filter": 0.25,   # r enters no function but the filter (and transitions)
-    "p_unused_choice": 0.15,   # b enters no function at all / only a constraint
+    "p_unused_choice": 0.15,
+    "p_param_collision": 0.3,  # the parameter name k also in the constraint and in next_w, with other values
+    "p_param_only_aux": 0.2,   # an auxiliary function of parameters only   # b enters no function at all / only a constraint
     "betas": [F(1, 2), F(3, 4), F(1), F(0), F(1, 4)],
     "inexact": False,
     "shuffle": True,
@@ -106,9 +108,13 @@ def _rand_model_once(rng, P):  # noqa: C901, PLR0912, PLR0915
     na = rng.choice([2, 3])
     nb = rng.choice([2, 3])
     nr = rng.choice([2, 3])
+    nh, ne = 2, 3
+    sz = P.get("sizes") or {}
+    nw, nc, na, nb, nr, nh, ne = (sz.get("w", nw), sz.get("c", nc), sz.get("a", na), sz.get("b", nb),
+                                  sz.get("r", nr), sz.get("h", nh), sz.get("e", ne))
     vars_ = []
     if has_h:
-        vars_.append(mkvar("h", "state", "disc", 2))
+        vars_.append(mkvar("h", "state", "disc", nh))
     if has_w:
         if log_w:
             nodes = [1, 2, 4] if nw == 3 else [1, 2, 4, 8, 16]
@@ -120,7 +126,7 @@ def _rand_model_once(rng, P):  # noqa: C901, PLR0912, PLR0915
     if has_z:
         vars_.append(mkvar("z", "state", "lin", 3, -1, 1))
     if has_e:
-        vars_.append(mkvar("e", "state", "disc", 3))
+        vars_.append(mkvar("e", "state", "disc", ne))
     if has_b:
         vars_.append(mkvar("b", "choice", "disc", nb))
     if has_a:
@@ -136,7 +142,7 @@ def _rand_model_once(rng, P):  # noqa: C901, PLR0912, PLR0915
             ns *= v["n"]
         else:
             ncx *= v["n"]
-    nlab = (2 if h_stoch else 1) * (3 if has_e else 1)
+    nlab = (nh if h_stoch else 1) * (ne if has_e else 1)
     ncorner = (2 if has_w else 1) * (2 if has_z else 1)
     if ns * ncx * nlab * ncorner > P["max_cells"]:
         return None
@@ -230,6 +236,12 @@ def _rand_model_once(rng, P):  # noqa: C901, PLR0912, PLR0915
         terms.append(mul(ci(-2, 2), var("_period")))
         uargs.append("_period")
         feat["F13"] = True
+    if has("p_param_only_aux"):
+        funcs.append(mkfunc("bonus", "aux", ["kb", "k"], add(var("kb"), var("k"))))
+        params["bonus"] = {"kb": q(rng.randint(-2, 2)), "k": q(rng.randint(0, 3))}
+        terms.append(var("bonus"))
+        uargs.append("bonus")
+        feat["param_only_aux"] = True
     if not terms:
         terms.append(const(0))
     funcs.append(mkfunc("utility", "utility", _shuf(rng, list(dict.fromkeys(uargs)), P), add(*terms)))
@@ -263,10 +275,12 @@ def _rand_model_once(rng, P):  # noqa: C901, PLR0912, PLR0915
         if has_d:
             nargs.append("d")
             e = add(e, var("d"))
-        if rng.random() < 0.3:
-            nargs.append("m")
-            e = ["sub", e, var("m")]
-            params["next_w"] = {"m": q(rng.choice([F(1, 2), F(1), F(3, 2)]))}
+        collide = has("p_param_collision")
+        if rng.random() < 0.3 or collide:
+            pn = "k" if collide else "m"
+            nargs.append(pn)
+            e = ["sub", e, var(pn)]
+            params["next_w"] = {pn: q(rng.choice([F(1, 2), F(1), F(3, 2)]))}
             feat["F2lo"] = True
         else:
             params["next_w"] = {}
@@ -283,8 +297,14 @@ def _rand_model_once(rng, P):  # noqa: C901, PLR0912, PLR0915
             if has_d and rng.random() < 0.5:
                 cargs.append("d")
                 lhs = add(lhs, var("d"))
-            funcs.append(mkfunc("bc_constraint", "constraint", _shuf(rng, cargs, P), ["le", lhs, var("w")]))
-            params["bc_constraint"] = {}
+            if collide:
+                cargs.append("k")
+                funcs.append(mkfunc("bc_constraint", "constraint", _shuf(rng, cargs, P), ["le", lhs, add(var("w"), var("k"))]))
+                params["bc_constraint"] = {"k": q(rng.choice([0, 1, F(1, 2)]))}
+                feat["F12"] = True
+            else:
+                funcs.append(mkfunc("bc_constraint", "constraint", _shuf(rng, cargs, P), ["le", lhs, var("w")]))
+                params["bc_constraint"] = {}
             feat["F9"] = True
             if has("p_infeasible_last"):
                 funcs.append(mkfunc("pos_constraint", "constraint", ["c"], ["le", const(F(1, 2)), var("c")]))
@@ -311,15 +331,14 @@ def _rand_model_once(rng, P):  # noqa: C901, PLR0912, PLR0915
             deps = _shuf(rng, deps, P)
             funcs.append(mkfunc("next_h", "stoch", deps, state="h"))
             shape = [T if d == "_period" else next(v for v in vars_ if v["name"] == d)["n"] for d in deps]
-            rows = ROWS2 if not P.get("onehot") else ROWS2[:2]
-            params.setdefault("shocks", {})["h"] = _tab(rng, shape, fn=lambda idx: None) if False else _rows(rng, shape, rows)
+            params.setdefault("shocks", {})["h"] = _rows(rng, shape, nh, bool(P.get("onehot")) and rng.random() < 0.8)
             feat["F16"] = len(deps) > 1
         else:
             src = rng.choice(dchoices)["name"] if dchoices else None
             if src:
-                funcs.append(mkfunc("next_h", "next", _shuf(rng, ["h", src], P), ["min", const(1), ["max", var("h"), var(src)]]))
+                funcs.append(mkfunc("next_h", "next", _shuf(rng, ["h", src], P), ["min", const(nh - 1), ["max", var("h"), var(src)]]))
             else:
-                funcs.append(mkfunc("next_h", "next", ["h"], ["sub", const(1), var("h")]))
+                funcs.append(mkfunc("next_h", "next", ["h"], ["sub", const(nh - 1), var("h")]))
         params["next_h"] = {}
     if has_e:
         deps = ["e"] if rng.random() < 0.7 else []
@@ -332,8 +351,7 @@ def _rand_model_once(rng, P):  # noqa: C901, PLR0912, PLR0915
         deps = _shuf(rng, deps, P)
         funcs.append(mkfunc("next_e", "stoch", deps, state="e"))
         shape = [next(v for v in vars_ if v["name"] == d)["n"] for d in deps]
-        rows = ROWS3 if not P.get("onehot") else ROWS3[:3]
-        params.setdefault("shocks", {})["e"] = _rows(rng, shape, rows)
+        params.setdefault("shocks", {})["e"] = _rows(rng, shape, ne, bool(P.get("onehot")) and rng.random() < 0.8)
         params["next_e"] = {}
         feat["F17"] = h_stoch
     if has_b and has_h and has("p_dense_constraint"):
@@ -355,10 +373,25 @@ def _rand_model_once(rng, P):  # noqa: C901, PLR0912, PLR0915
             "meta": {"feat": feat, "admitted": admitted, "inexact": bool(P["inexact"] or log_w)}}
 
 
-def _rows(rng, shape, rows):
+def rand_row(rng, n, onehot=False):
+    """A transition row with dyadic probabilities, zeros in random places."""
+    k = 1 if onehot else rng.choice([1, 2, 2, 3, 4])
+    k = min(k, n)
+    probs = {1: [[F(1)]], 2: [[F(1, 2), F(1, 2)], [F(1, 4), F(3, 4)], [F(3, 4), F(1, 4)]],
+             3: [[F(1, 2), F(1, 4), F(1, 4)], [F(1, 4), F(1, 2), F(1, 4)], [F(1, 4), F(1, 4), F(1, 2)]],
+             4: [[F(1, 4)] * 4]}[k]
+    pr = rng.choice(probs)
+    pos = sorted(rng.sample(range(n), k))
+    row = [F(0)] * n
+    for i, x in zip(pos, pr):
+        row[i] = x
+    return row
+
+
+def _rows(rng, shape, n, onehot=False):
     def rec(dims):
         if not dims:
-            return [q(x) for x in rng.choice(rows)]
+            return [q(x) for x in rand_row(rng, n, onehot)]
         return [rec(dims[1:]) for _ in range(dims[0])]
     return rec(list(shape))
 
